@@ -855,7 +855,8 @@ fn gen_ops(r: &mut Rng, n: u64, tier: Tier, faults: bool) -> Vec<WOp> {
 	let mut ops = Vec::new();
 	let total_push = r.range(0, 3 * n + 5);
 	let dense = tier == Tier::Thorough || n <= 8;
-	let obs_rate = if dense { 0.9 } else { 0.25 };
+	// observers cost O(n) each: beyond a few hundred elements their rate is scaled down so that a run stays O(n)
+	let obs_rate = if n > 300 { (120.0 / n as f64).min(0.9) } else if dense { 0.9 } else { 0.25 };
 	let mut pushed = 0;
 	loop {
 		// observers at this state
@@ -876,7 +877,7 @@ fn gen_ops(r: &mut Rng, n: u64, tier: Tier, faults: bool) -> Vec<WOp> {
 				3 => WOp::Oldest,
 				4 => WOp::Len,
 				5 => WOp::Slice,
-				6 if n <= 64 || tier == Tier::Thorough => WOp::Sweep,
+				6 if n <= 64 || (tier == Tier::Thorough && n <= 300) => WOp::Sweep,
 				_ => {
 					let k = match r.below(5) {
 						0 => 0,
@@ -893,13 +894,15 @@ fn gen_ops(r: &mut Rng, n: u64, tier: Tier, faults: bool) -> Vec<WOp> {
 				}
 			});
 		}
-		if faults && r.chance(if dense { 0.25 } else { 0.06 }) {
+		// rebuilds and storage faults cost O(n) each as well
+		let big = if n > 300 { 60.0 / n as f64 } else { 1.0 };
+		if faults && r.chance(big * if dense { 0.25 } else { 0.06 }) {
 			ops.push(WOp::Rebuild(r.below(5) as u8));
 		}
-		if faults && r.chance(0.05) {
+		if faults && r.chance(big * 0.05) {
 			ops.push(WOp::SerFail(r.next_u64() as u32));
 		}
-		if faults && r.chance(if dense { 0.15 } else { 0.04 }) {
+		if faults && r.chance(big * if dense { 0.15 } else { 0.04 }) {
 			ops.push(WOp::Corrupt(match r.below(13) {
 				0 => Corrupt::IndexEqLen,
 				1 => Corrupt::IndexPlus(r.range(1, 5)),
@@ -941,7 +944,14 @@ impl Check for C01 {
 		let mut rc = run.sub("config");
 		let maxcap = (PMAX - 1).min(if tier == Tier::Thorough { 4094 } else { 254 });
 		// capacity: stratified over all capacities in thorough, boundary-biased in quick
-		let n = if tier == Tier::Thorough {
+		let n = if tier == Tier::Thorough && maxcap > 254 {
+			// wide PeriodType: every capacity up to 254 as in the default build; one run in eight beyond (up to 4094)
+			if i % 8 == 0 {
+				255 + (i / 8) % (maxcap - 254)
+			} else {
+				i % 255
+			}
+		} else if tier == Tier::Thorough {
 			i % (maxcap + 1)
 		} else {
 			const B: [u64; 13] = [0, 1, 2, 3, 4, 5, 7, 8, 16, 127, 128, 253, 254];
